@@ -276,6 +276,8 @@ def run_job(spec, ctx):
     key, op, tier = spec['model'], spec['op'], spec['tier']
     core.INPUT_FACTS.clear()
 
+    last = {}
+
     def run():
         registry = []
         Model, mk_teams, mk_vec = _menus(key, tier, registry)
@@ -285,6 +287,7 @@ def run_job(spec, ctx):
         teams = mk_teams()
         ranks = mk_vec('ranks') if op == 'rate' else None
         scores = mk_vec('scores') if op == 'rate' else None
+        last.update(teams=teams, ranks=ranks, scores=scores)
         d0 = {k: v for k, v in m.__dict__.items() if k != '_armed'}
         outcome = None
         try:
@@ -307,9 +310,9 @@ def run_job(spec, ctx):
             break
         if kind == 'exc':
             # an exception class other than TypeError/ValueError escaped
+            desc = {'teams': describe(last.get('teams')), 'ranks': describe(last.get('ranks')), 'scores': describe(last.get('scores'))}
             ctx.ob(f'{op}: exception {type(out).__name__} escapes ({out})', 'sat',
-                   {'model': key, 'op': op, 'note': f'{type(out).__name__}: {out}', 'desc': None, 'from_exc': True,
-                    'pc': [str(c) for c in eng.pc]})
+                   {'model': key, 'op': op, 'note': f'{type(out).__name__}: {out}', 'desc': desc, 'from_exc': True})
             continue
         if ctx.vacuity['checked'] == 0:
             ctx.vacuity['checked'] += 1
